@@ -1,8 +1,346 @@
-import PprofVerif.Model.Measure
+import PprofVerif.Lemmas.Measure
+import PprofVerif.Model.MeasureFacts
 import PprofVerif.Spec.Units
+/-!
+# C15 — Unit conversion and value formatting preserve magnitude
+
+Property theorems only (helper lemmas live in `Lemmas/Measure.lean`).  They are about the
+executable model `Model/Measure.lean` of `internal/measurement` in EXACT rational arithmetic (`Q`;
+`≃` below is `Q.eqv`, equality of the denoted rationals by cross-multiplication), over the unit
+table `table` that `tools/extract/units.go` regenerates from `measurement.UnitTypes` on every
+run.  Two kinds of statements:
+
+* **table facts**, decided by the kernel on the regenerated table each run (`decide`): they fail
+  to elaborate when /repo's table stops having the property;
+* **theorems for all values** — all `Int` values (hence all int64, MinInt64 included), all unit
+  strings — about ANY table `T` that passes the table facts they name as hypotheses; together
+  with the table facts they are statements about the real table.
+
+What float64 rounding adds to the exact results is not covered here: the correspondence check
+compares the real code with this model within relative 2⁻⁵⁰ (exactly where IEEE arithmetic is
+exact).  The model is of the code repaired by fixes/C15-sniffunit-mus.patch and
+fixes/C15-autoscale-minint64.patch.
+-/
 namespace PV.Props.C15
 open PV PV.Measure
 
-theorem table_nonempty : table ≠ [] := by decide
+set_option maxRecDepth 8000
+
+/-! ## table facts (re-decided on every run) -/
+
+/-- every factor is a positive rational and no two units of a family have the same size -/
+theorem factors_positive_distinct : factorsPosB table = true ∧ factorsDistinctB table = true := by
+  decide
+
+/-- no alias of one family — nor its plural — is an alias of another family -/
+theorem aliases_disjoint_across_families : aliasesDisjointB table = true := by decide
+
+/-- sniffing any listed alias, its plural (aliases of two or more bytes), and the upper-case
+spellings of both finds exactly the alias's unit; aliases are listed in lower case -/
+theorem every_alias_recognised :
+    everyAliasRecognisedB table = true ∧ aliasesLowerB table = true := by decide
+
+/-- the default unit of every family is one of its units (same printed name, same size) -/
+theorem default_unit_in_family : defaultInFamilyB table = true := by decide
+
+/-- "auto" and "minimum" are not unit names -/
+theorem auto_words_are_not_units : autoNotUnitB table = true := by decide
+
+/-- the table says what the hand-written dictionary `Spec/Units.lean` says: the same families,
+the same printed names, the same sets of names, and the same size ratios
+(2^10 steps for bytes, 10^3 / 3600 for time, decimal prefixes for GCU within float64 rounding) -/
+theorem table_refines_spec : refinesSpecB table = true := by decide
+
+/-- in every family except GCU (whose factors are float64 values of decimal fractions) a larger
+unit is a whole number of hundredths of a smaller one — the hypothesis of `label_monotone_partial` -/
+theorem unit_steps_centesimal :
+    (table.all fun F => centesimalB F || F.name == [71, 67, 85]) = true := by decide
+
+/-! ## conversion -/
+
+/-- **Same family ⇒ exact ratio.**  If the first family that recognises the source string is `F`
+(source unit `ua`) and the target string denotes `ub` in `F`, the result carries `ub`'s name and
+its value is `v · (f_a / f_b)`; equivalently value · f_b = v · f_a. -/
+theorem scale_same_family_exact (T : Table) (hpos : factorsPosB T = true) (v : Int) (frm dst : Str)
+    (F : Family) (ua ub : MUnit) (hf : firstFamily T frm = some (F, ua))
+    (hd : isAuto dst = false) (ht : sniffUnit F dst = some ub) :
+    (scale T v frm dst).2 = ub.name ∧
+    Q.eqv (scale T v frm dst).1 ((Q.ofInt v).mul (ua.factor.div ub.factor)) ∧
+    Q.eqv ((scale T v frm dst).1.mul ub.factor) ((Q.ofInt v).mul ua.factor) := by
+  rw [scale_eq_core, scaleCore_eq, hf]
+  simp only [convertFrom, hd, ht, Bool.false_eq_true, if_false]
+  obtain ⟨hF, _⟩ := firstFamily_some hf
+  have pb := (posU_of_table hpos hF).2 ub (sniffUnit_some ht).1
+  exact ⟨trivial, Q.mul_div_assoc _ _ _, Q.div_mul_cancel _ _ pb.1⟩
+
+example : firstFamily table [107, 98] /- "kb" -/ ≠ none ∧ isAuto [77, 66] /- "MB" -/ = false := by decide
+
+/-- **Identity for equal units**: when source and target strings denote the same unit (in
+particular when they are the same string) the value is unchanged. -/
+theorem scale_id (T : Table) (hpos : factorsPosB T = true) (v : Int) (frm dst : Str)
+    (F : Family) (ua : MUnit) (hf : firstFamily T frm = some (F, ua))
+    (hd : isAuto dst = false) (ht : sniffUnit F dst = some ua) :
+    (scale T v frm dst).2 = ua.name ∧ Q.eqv (scale T v frm dst).1 (Q.ofInt v) := by
+  obtain ⟨h1, _, h3⟩ := scale_same_family_exact T hpos v frm dst F ua ua hf hd ht
+  refine ⟨h1, ?_⟩
+  obtain ⟨hF, hs⟩ := firstFamily_some hf
+  have pa := (posU_of_table hpos hF).2 ua (sniffUnit_some hs).1
+  have pn : (0 : Int) < ua.fnum := pa.1
+  have pd : (0 : Int) < ua.fden := by exact_mod_cast pa.2
+  unfold Q.eqv at h3 ⊢
+  simp only [Q.mul, Q.ofInt, Gen.Units.RawUnit.factor] at h3 ⊢
+  push_cast at h3 ⊢
+  have hpp : (0 : Int) < ua.fnum * ua.fden := Int.mul_pos pn pd
+  apply Int.eq_of_mul_eq_mul_right (ne_of_gt hpp)
+  linarith [h3]
+
+example : (firstFamily table [66] /- "B" -/).map (·.2) =
+    (firstFamily table [98, 121, 116, 101, 115] /- "bytes" -/).map (·.2) ∧
+    (firstFamily table [66]).isSome = true := by
+  decide
+
+/-- **Commutes with negation**, for every value (in exact arithmetic the `value < 0 && -value > 0`
+guard of `Scale` is transparent; for int64 the statement is about v ≠ MinInt64, whose negation is
+not an int64). -/
+theorem scale_neg (T : Table) (v : Int) (frm dst : Str) :
+    scale T (-v) frm dst = ((scale T v frm dst).1.neg, (scale T v frm dst).2) := by
+  rw [scale_eq_core, scale_eq_core, scaleCore_neg]
+
+/-- the MinInt64 guard: `Scale` on MinInt64 does not recurse and agrees with the exact formula -/
+theorem scale_minInt64_guard (T : Table) (frm dst : Str) :
+    scale T minInt64 frm dst = scaleCore T minInt64 frm dst ∧ negI64 minInt64 = minInt64 := by
+  exact ⟨scale_eq_core T minInt64 frm dst, by decide⟩
+
+/-- **Never crosses families, never treats an unknown unit as a known one.**
+(1) A source string no family recognises: factor 1, value unchanged, the target string passed
+through ("" for the skip words).  (2) A source unit of family `F`: whatever the target is (a unit of
+`F`, of another family, unknown, "auto", "minimum"), the result is expressed in a unit `u` of `F`
+itself (one of its units or its default unit) and value · f_u = v · f_a — the magnitude is
+preserved and no unit of another family is ever attached.  (3) A target that `F` does not
+recognise gives the result in `F`'s default unit. -/
+theorem scale_never_crosses_family (T : Table) (hpos : factorsPosB T = true) (v : Int) (frm dst : Str) :
+    (firstFamily T frm = none → scale T v frm dst = passthrough v dst) ∧
+    (∀ F ua, firstFamily T frm = some (F, ua) →
+      (∃ u, (u ∈ F.units ∨ u = F.default) ∧ (scale T v frm dst).2 = u.name ∧
+        Q.eqv ((scale T v frm dst).1.mul u.factor) ((Q.ofInt v).mul ua.factor)) ∧
+      (isAuto dst = false → sniffUnit F dst = none →
+        scale T v frm dst = (((Q.ofInt v).mul ua.factor).div F.default.factor, F.default.name))) := by
+  rw [scale_eq_core, scaleCore_eq]
+  refine ⟨fun h => by rw [h], ?_⟩
+  intro F ua hf
+  rw [hf]
+  obtain ⟨hF, hs⟩ := firstFamily_some hf
+  obtain ⟨pd, pu⟩ := posU_of_table hpos hF
+  refine ⟨?_, ?_⟩
+  · obtain ⟨u, hu, hname, hval⟩ := convertFrom_magnitude F ua v dst pu
+    refine ⟨u, hu, hname, ?_⟩
+    simp only
+    rw [hval]
+    have : PosU u := by
+      rcases hu with h | h
+      · exact pu u h
+      · rw [h]; exact pd
+    exact Q.div_mul_cancel _ _ this.1
+  · intro hd hn
+    simp only [convertFrom, hd, hn, Bool.false_eq_true, if_false]
+
+example : firstFamily table [119, 105, 100, 103, 101, 116, 115] /- "widgets" -/ = none := by decide
+example : (match firstFamily table [107, 98] /- "kb" -/ with
+    | some (F, _) => (sniffUnit F [109, 115] /- "ms" -/).isNone
+    | none => false) = true := by
+  decide
+
+/-- **Automatic selection picks the largest unit that keeps the magnitude at or above one.**
+For a source unit `ua` of family `F` and `v ≠ 0`, the target "auto"/"minimum" yields a unit `u` of
+`F` with value = v·f_a / f_u, `1 ≤ |v|·f_a / f_u`, and every unit `w` of `F` that also keeps the
+magnitude at or above one is no larger than `u`.  For `v = 0` the default unit is used. -/
+theorem autoscale_largest_ge_one (T : Table) (hpos : factorsPosB T = true) (v : Int) (frm dst : Str)
+    (F : Family) (ua : MUnit) (hf : firstFamily T frm = some (F, ua)) (hd : isAuto dst = true) :
+    (v ≠ 0 → ∃ u ∈ F.units,
+      scale T v frm dst = (((Q.ofInt v).mul ua.factor).div u.factor, u.name) ∧
+      Qual ((Q.ofInt v).mul ua.factor) u ∧
+      ∀ w ∈ F.units, Qual ((Q.ofInt v).mul ua.factor) w → Q.le w.factor u.factor) ∧
+    (v = 0 → scale T v frm dst = (((Q.ofInt 0).mul ua.factor).div F.default.factor, F.default.name)) := by
+  rw [scale_eq_core, scaleCore_eq, hf]
+  obtain ⟨hF, hs⟩ := firstFamily_some hf
+  obtain ⟨_, pu⟩ := posU_of_table hpos hF
+  have hua := (sniffUnit_some hs).1
+  have pa := pu ua hua
+  have spec := autoScale_spec F ((Q.ofInt v).mul ua.factor) pu
+  simp only [convertFrom, hd, if_true]
+  refine ⟨?_, ?_⟩
+  · intro hv
+    cases ha : autoScale F ((Q.ofInt v).mul ua.factor) with
+    | none =>
+      -- impossible: the source unit itself keeps |v| ≥ 1
+      rw [ha] at spec
+      exfalso
+      apply spec ua hua
+      unfold Qual Q.le
+      simp only [Q.abs, Q.div, Q.mul, Q.ofInt, Q.one, Gen.Units.RawUnit.factor,
+        Int.sign_eq_one_of_pos pa.1, Int.natAbs_mul]
+      have hv1 : 1 ≤ v.natAbs := Int.natAbs_pos.2 hv
+      have hn : 0 < ua.fnum.natAbs := Int.natAbs_pos.2 (ne_of_gt pa.1)
+      have key : 1 * ua.fden * ua.fnum.natAbs ≤ v.natAbs * ua.fnum.natAbs * ua.fden := by
+        have := Nat.mul_le_mul_right (ua.fnum.natAbs * ua.fden) hv1
+        calc 1 * ua.fden * ua.fnum.natAbs = 1 * (ua.fnum.natAbs * ua.fden) := by ring
+          _ ≤ v.natAbs * (ua.fnum.natAbs * ua.fden) := this
+          _ = v.natAbs * ua.fnum.natAbs * ua.fden := by ring
+      have key' : ((1 * ua.fden * ua.fnum.natAbs : Nat) : Int) ≤ ((v.natAbs * ua.fnum.natAbs * ua.fden : Nat) : Int) := by
+        exact_mod_cast key
+      push_cast at key' ⊢
+      linarith [key']
+    | some r =>
+      rw [ha] at spec
+      obtain ⟨u, hu, hr, hq, hmax⟩ := spec
+      exact ⟨u, hu, hr, hq, hmax⟩
+  · intro hv
+    subst hv
+    cases ha : autoScale F ((Q.ofInt 0).mul ua.factor) with
+    | none => rfl
+    | some r =>
+      rw [ha] at spec
+      obtain ⟨u, hu, _, hq, _⟩ := spec
+      exfalso
+      have pw := pu u hu
+      unfold Qual Q.le at hq
+      simp only [Q.abs, Q.div, Q.mul, Q.ofInt, Q.one, Gen.Units.RawUnit.factor,
+        Int.sign_eq_one_of_pos pw.1, Int.zero_mul, Int.natAbs_zero] at hq
+      have hn : 0 < u.fnum.natAbs := Int.natAbs_pos.2 (ne_of_gt pw.1)
+      have hpos' : 0 < 1 * ua.fden * u.fnum.natAbs := Nat.mul_pos (Nat.mul_pos (by decide) pa.2) hn
+      have : ((0 : Nat) : Int) < ((1 * ua.fden * u.fnum.natAbs : Nat) : Int) := by exact_mod_cast hpos'
+      simp at hq this
+      omega
+
+example : isAuto sAuto = true ∧ isAuto sMinimum = true := by decide
+
+/-! ## labels -/
+
+/-- the number `ScaledLabel` prints is the scaled value rounded to two decimals, and a value that
+rounds to zero is printed as a bare "0" -/
+theorem label_number (T : Table) (v : Int) (frm dst : Str) :
+    Q.eqv (label T v frm dst).1 (round2 (scale T v frm dst).1) ∧
+    ((round2 (scale T v frm dst).1).num ≠ 0 → (label T v frm dst).2 = (scale T v frm dst).2) := by
+  unfold label
+  simp only
+  split
+  · rename_i h
+    exact ⟨by simp [Q.eqv, Q.zero, h], fun hne => absurd h hne⟩
+  · exact ⟨Q.eqv_refl _, fun _ => rfl⟩
+
+/-
+Full statement `label_monotone` (not proved): for every table passing the table facts, every
+family and all values v₁ ≤ v₂, label(v₁) read back with its unit ≤ label(v₂) read back with its
+unit.  What is missing: (a) families whose unit ratios are not whole hundredths — over exact
+rationals the statement is FALSE by one float64 ulp for the GCU family, whose factors are the
+float64 values of 1e-9, 1e-6, 1e-3 (round2 of a value just below a unit step can exceed the step
+by 2⁻⁵² relative); (b) negative values follow from `scale_neg` and the oddness of `round2`, not
+stated here.
+-/
+
+/-- **Labels are monotone in the value** (proved part): in a family whose unit steps are whole
+hundredths (`centesimalB`: bytes and time, see `unit_steps_centesimal`), for values
+1 ≤ v₁ ≤ v₂ in the same source unit with automatic unit selection, the two labels carry units
+`u₁`, `u₂` of the family, and the printed numbers read back with their units are ordered:
+round2(x₁)·f₁ ≤ round2(x₂)·f₂. -/
+theorem label_monotone_partial (T : Table) (hpos : factorsPosB T = true) (frm dst : Str)
+    (F : Family) (ua : MUnit) (hf : firstFamily T frm = some (F, ua)) (hd : isAuto dst = true)
+    (hcent : centesimalB F = true) (v1 v2 : Int) (h1 : 1 ≤ v1) (h12 : v1 ≤ v2) :
+    ∃ u1 ∈ F.units, ∃ u2 ∈ F.units,
+      (scale T v1 frm dst).2 = u1.name ∧ (scale T v2 frm dst).2 = u2.name ∧
+      Q.le ((round2 (scale T v1 frm dst).1).mul u1.factor) ((round2 (scale T v2 frm dst).1).mul u2.factor) := by
+  obtain ⟨hF, hs⟩ := firstFamily_some hf
+  obtain ⟨_, pu⟩ := posU_of_table hpos hF
+  have pa := pu ua (sniffUnit_some hs).1
+  obtain ⟨a1, _⟩ := autoscale_largest_ge_one T hpos v1 frm dst F ua hf hd
+  obtain ⟨a2, _⟩ := autoscale_largest_ge_one T hpos v2 frm dst F ua hf hd
+  obtain ⟨u1, hu1, e1, q1, m1⟩ := a1 (by omega)
+  obtain ⟨u2, hu2, e2, q2, m2⟩ := a2 (by omega)
+  refine ⟨u1, hu1, u2, hu2, by rw [e1], by rw [e2], ?_⟩
+  rw [e1, e2]
+  have pn : (0 : Int) < ua.fnum := pa.1
+  have pd : (0 : Int) < ua.fden := by exact_mod_cast pa.2
+  apply autoLabel_mono F pu hcent _ _ _ _ _ _ u1 u2 hu1 hu2 q1 q2 m1 m2
+  · simp only [Q.mul, Q.ofInt, Gen.Units.RawUnit.factor]
+    exact Int.mul_nonneg (by omega) (le_of_lt pn)
+  · simp only [Q.mul, Q.ofInt, Gen.Units.RawUnit.factor]; exact Nat.mul_pos (by decide) pa.2
+  · simp only [Q.mul, Q.ofInt, Gen.Units.RawUnit.factor]; exact Nat.mul_pos (by decide) pa.2
+  · unfold Q.le
+    simp only [Q.mul, Q.ofInt, Gen.Units.RawUnit.factor]
+    push_cast
+    have := Int.mul_le_mul_of_nonneg_right h12 (le_of_lt (Int.mul_pos pn pd))
+    nlinarith [this]
+
+example : (table.filter centesimalB).length = 2 := by decide
+
+/-! ## harmonising several profiles -/
+
+/-- **`ScaleProfiles` preserves each profile's physical totals.**  For a table passing the table
+facts, whenever the model of `ScaleProfiles` succeeds on profiles `ps`, every output profile is the
+input profile `Harmonised`: sample types keep their Type; the ratio of column `i` times the
+physical size of its new unit is the physical size of its old unit; every sample value is
+multiplied by the ratio of its column; the period is converted the same way — and therefore, for
+every column, (Σ new values) · size(new unit) = (Σ old values) · size(old unit). -/
+theorem scaleProfiles_preserves_totals (T : Table) (hpos : factorsPosB T = true)
+    (hdis : aliasesDisjointB T = true) (hauto : autoNotUnitB T = true)
+    (ps : List MProf) (out : List MProfOut) (h : scaleProfiles T ps = .ok out) :
+    ∃ f : MProf → MProfOut, out = ps.map f ∧ ∀ p ∈ ps,
+      Harmonised T p (f p) ∧
+      ((∀ s ∈ p.samples, s.length = p.sampleTypes.length) →
+        ∀ i (h1 : i < p.sampleTypes.length) (h2 : i < (f p).sampleTypes.length),
+          Q.eqv ((colTotalQ (f p).samples i).mul (phys T (f p).sampleTypes[i].unit))
+            ((Q.ofInt (colTotal p.samples i)).mul (phys T p.sampleTypes[i].unit))) := by
+  obtain ⟨f, hout, hf⟩ := scaleProfiles_spec hpos (uniqueFamily_of_disjoint T hdis) hauto ps out h
+  exact ⟨f, hout, fun p hp => ⟨hf p hp, fun hrows i h1 h2 => harmonised_totals (hf p hp) hrows i h1 h2⟩⟩
+
+/-- the common type `CommonValueType` returns is one of the inputs and every input is compatible
+with it (same unit string, or a unit of the same family) -/
+theorem commonValueType_is_compatible_input (T : Table) (hdis : aliasesDisjointB T = true)
+    (l : List VT) (c : VT) (h : commonValueType T l = .ok (some c)) :
+    c ∈ l ∧ ∀ t ∈ l, CompatU T t.unit c.unit :=
+  commonValueType_ok (uniqueFamily_of_disjoint T hdis) h
+
+example : (scaleProfiles table
+    [{ periodType := none, period := 0, sampleTypes := [⟨[], [109, 115]⟩], samples := [[5]] },
+     { periodType := none, period := 0, sampleTypes := [⟨[], [110, 115]⟩], samples := [[7]] }]).isOk = true := by
+  decide
+
+/-! ## percentages -/
+
+/-- **Percentages are computed from absolute ratios**: the ratio is `|v| · 100 / |total|`
+(stated without dividing), insensitive to the signs of value and total, never negative, and 0
+for a zero total. -/
+theorem percentage_abs (v t : Int) :
+    (t ≠ 0 → (pctRatio v t).num * t.natAbs = v.natAbs * 100 * (pctRatio v t).den ∧ 0 < (pctRatio v t).den) ∧
+    pctRatio (-v) t = pctRatio v t ∧ pctRatio v (-t) = pctRatio v t ∧
+    0 ≤ (pctRatio v t).num ∧ pctRatio v 0 = Q.zero := by
+  refine ⟨?_, ?_, ?_, ?_, ?_⟩
+  · intro ht
+    unfold pctRatio
+    simp only [ht, if_false, Q.mul, Q.abs, Q.div, Q.ofInt]
+    refine ⟨?_, by simp; omega⟩
+    have hs : t.sign.natAbs = 1 := by
+      rcases Int.lt_or_gt_of_ne ht with h | h
+      · rw [Int.sign_eq_neg_one_of_neg h]; rfl
+      · rw [Int.sign_eq_one_of_pos h]; rfl
+    simp only [Int.natAbs_mul, hs, Nat.mul_one, Nat.one_mul]
+    push_cast
+    ring
+  · unfold pctRatio
+    by_cases ht : t = 0
+    · simp [ht]
+    · simp [ht, Q.mul, Q.abs, Q.div, Q.ofInt, Int.natAbs_mul]
+  · unfold pctRatio
+    by_cases ht : t = 0
+    · simp [ht]
+    · simp [ht, Q.mul, Q.abs, Q.div, Q.ofInt, Int.natAbs_mul, Int.sign_neg]
+  · unfold pctRatio
+    by_cases ht : t = 0
+    · simp [ht, Q.zero]
+    · simp only [ht, if_false, Q.mul, Q.abs, Q.div, Q.ofInt]
+      exact Int.mul_nonneg (Int.natCast_nonneg _) (by decide)
+  · simp [pctRatio]
+
+example : pctRatio (-1) 3 = ⟨100, 3⟩ ∧ pctClass (pctRatio 9995 10000) = .hundred := by decide
 
 end PV.Props.C15
